@@ -255,7 +255,7 @@ func verifFakeDigest(i int) digest.Digest {
 	return digest.FromString("verif-c16-unknown-" + strconv.Itoa(i))
 }
 
-func newVerifH(t *testing.T) *verifH {
+func verifNewH(t *testing.T) *verifH {
 	h := &verifH{t: t, out: verifutil.OpenOut(), rnd: verifutil.NewRand(verifutil.Seed()),
 		tocs: map[int]digest.Digest{}, tocIdx: map[string]int{}, ldIdx: map[string]int{},
 		refIdx: map[string]int{}, diffID: map[string]int{}}
@@ -492,18 +492,44 @@ func verifBusyWorkers() int {
 	return busy
 }
 
-// waitQuiescent waits until the lookup that just returned has no worker left.
-func (h *verifH) waitQuiescent(ref int) {
+// waitQuiescent waits until the lookup that just returned has no worker left.  When the lookup
+// went through the manifest (resolved == true) every manifest layer must also have got a resolve
+// status; that second criterion does not depend on how getLayer spawns its workers.
+func (h *verifH) waitQuiescent(ref int, resolved bool) {
 	deadline := time.Now().Add(20 * time.Second)
 	for {
 		if verifBusyWorkers() == 0 {
-			return
+			break
 		}
 		if time.Now().After(deadline) {
 			h.fail("resolve-not-quiescent", fmt.Sprintf("layers of ref %d are still being resolved 20s after the lookup", ref))
 			return
 		}
 		time.Sleep(20 * time.Microsecond)
+	}
+	if !resolved {
+		return
+	}
+	im := h.images[ref]
+	grace := time.Now().Add(2 * time.Second)
+	for {
+		all := true
+		h.lm.mu.Lock()
+		c := h.lm.resolveLayerCache[im.ref.String()]
+		for _, d := range im.descs {
+			if _, ok := c[d.Digest.String()]; !ok {
+				all = false
+			}
+		}
+		h.lm.mu.Unlock()
+		if all {
+			return
+		}
+		if time.Now().After(grace) {
+			h.out.Count("resolve-status-incomplete-after-lookup")
+			return
+		}
+		time.Sleep(50 * time.Microsecond)
 	}
 }
 
@@ -645,7 +671,7 @@ func (h *verifH) lookup(ref, toc int, via string) {
 	h.hist = append(h.hist, opl)
 	manifestAvail := im.exists && (diskBefore || mf)
 	if !cachedBefore {
-		h.waitQuiescent(ref)
+		h.waitQuiescent(ref, manifestAvail)
 	}
 	if !cachedBefore && manifestAvail {
 		// oracle bookkeeping: every layer that could not be resolved during this pass may now carry
@@ -1287,7 +1313,7 @@ func (h *verifH) race(round int) {
 		}(i)
 	}
 	wg.Wait()
-	h.waitQuiescent(A)
+	h.waitQuiescent(A, true)
 	first := map[int]layer.Layer{}
 	for _, x := range res {
 		if x.toc == 100 {
@@ -1325,7 +1351,7 @@ func (h *verifH) race(round int) {
 
 func TestVerifC16(t *testing.T) {
 	log.SetLevel("panic") // the store logs every use/release at info level
-	h := newVerifH(t)
+	h := verifNewH(t)
 	defer h.close()
 	h.handWritten()
 	n := verifutil.EnvInt("VERIF_N", 120)
